@@ -1,7 +1,7 @@
 """C18 Format size limits are enforced and 64-bit offsets are addressed correctly — threshold products + sparse-file accesses."""
 import itertools, sys, os, struct
 sys.path.insert(0, os.path.dirname(os.path.dirname(os.path.abspath(__file__))))
-from engine import build, runner
+from engine import build, runner, cdf, fileck
 from engine.common import Check
 from engine.runner import Case
 from engine.script import first_frame
@@ -240,6 +240,49 @@ def gen_strides(nps):
     return cases
 
 
+def gen_blocks(nps):
+    """sub-blocks (count > 1 in several dimensions) of variables with three and more dimensions one of which exceeds 2^31-1: the
+    file type of such a request is built by hand from nested vectors; every row of the block is then read with a contiguous get"""
+    cases = []
+    for (name, dims) in [('3d-fast', [3, 4, G31 + 16]), ('3d-mid', [3, G31 + 16, 2]), ('4d-fast', [2, 3, 2, G31 + 16])]:
+        nd = len(dims)
+        for np in nps:
+            for big_at in ('low', 'high'):
+                c = Case('BLOCK-%s-np%d-%s' % (name, np, big_at), np)
+                c.op('*', 'create', f=0, path='a.nc', fmt=5, hints=TIGHT)
+                for k, L in enumerate(dims): c.op('*', 'def_dim', f=0, name='d%d' % k, len=L)
+                c.op('*', 'def_var', f=0, name='big', xtype='byte', dims=list(range(nd)))
+                c.op('*', 'enddef', f=0)
+                bigd = dims.index(G31 + 16)
+                st = [0] * nd; ct = [2] * nd
+                for d in range(nd):
+                    if d == bigd: st[d] = 5 if big_at == 'low' else G31 + 3; ct[d] = 3
+                    else: st[d] = dims[d] - 2
+                n = 1
+                for x in ct: n *= x
+                vals = [(7 * j) % 100 + 1 for j in range(n)]
+                r0 = np - 1
+                ctx = dict(rank=r0, rows=[])
+                for rr in range(np):
+                    if rr == r0: ctx['put'] = c.op(rr, 'put', f=0, form='vara', v=0, s=st, c=ct, coll=1, mem='schar', vals=vals)
+                    else: c.op(rr, 'put', f=0, form='vara', v=0, s=st, c=[0] * nd, coll=1, mem='schar')
+                c.op('*', 'sync', f=0)
+                # rows along the last dimension: contiguous requests
+                last = nd - 1
+                outer = [range(ct[d]) for d in range(last)]
+                for combo in itertools.product(*outer):
+                    s2 = [st[d] + combo[d] for d in range(last)] + [st[last]]
+                    c2 = [1] * last + [ct[last]]
+                    lin = 0
+                    for d in range(last): lin = lin * ct[d] + combo[d]
+                    want = vals[lin * ct[last]:(lin + 1) * ct[last]]
+                    ctx['rows'].append((c.op('*', 'get', f=0, form='vara', v=0, s=s2, c=c2, coll=1, mem='schar'), s2, want))
+                ctx['whole'] = (c.op('*', 'get', f=0, form='vara', v=0, s=st, c=ct, coll=1, mem='schar'), vals)
+                c.op('*', 'close', f=0); c.op(0, 'unlink', path='a.nc')
+                cases.append((c, ctx))
+    return cases
+
+
 def gen_access(quick, nps):
     cases = []
     for (name, fmt, xt, dims, isrec) in BIGVARS:
@@ -361,6 +404,25 @@ def main(tier=None):
         if bad: ck.violation(('value', 'strided access', 'byte step around 2^31 / 2^32 in the fastest dimension'), c.text(), '%s: %s' % (c.name, bad))
         ck.outcomes.add(('stride', c.name))
     ck.cov['large_strides'] = len(strides)
+    blocks = gen_blocks((1, 2) if thorough else (1,))
+    bres = runner.run_cases(b['vx'], [x[0] for x in blocks], batch=6, timeout=900)
+    for (c, x), r in zip(blocks, bres):
+        ck.cov['evaluations'] += 1
+        if r.status != 'ok': ck.violation((r.status, 'sub-block', first_frame(r.detail)), c.text(), c.name + ': ' + r.detail[:500]); continue
+        bad = None
+        p_ = r.r(x['rank'], x['put'])
+        if p_ is None or p_.rc != 0: bad = 'put_vara returned %s' % (p_.rc if p_ is not None else None)
+        for k in r.ranks:
+            if bad: break
+            for ln, s2, want in x['rows']:
+                o = r.r(k, ln)
+                if o is None or o.rc != 0 or o.vals() != want: bad = 'rank %d reads the row at %s as %s (rc=%s), written %s' % (k, s2, o.vals() if o is not None else None, o.rc if o is not None else None, want); break
+            if not bad:
+                o = r.r(k, x['whole'][0])
+                if o is None or o.rc != 0 or o.vals() != x['whole'][1]: bad = 'rank %d reads the whole block back as %s..., written %s...' % (k, (o.vals() or [])[:8] if o is not None else None, x['whole'][1][:8])
+        if bad: ck.violation(('value', 'sub-block', 'dimension above 2^31-1 in a variable of 3+ dimensions'), c.text(), '%s: %s' % (c.name, bad))
+        ck.outcomes.add(('block', c.name))
+    ck.cov['large_dim_blocks'] = len(blocks)
     for (c, lines, le, fmt, vv), r in zip(dcases, res):
         ck.cov['evaluations'] += 1
         if r.status != 'ok': ck.violation((r.status, 'enddef', first_frame(r.detail)), c.text(), c.name + ': ' + r.detail[:400]); continue
@@ -395,11 +457,21 @@ def main(tier=None):
                     if g.rc != 0 or g.vals() != want:
                         ck.violation(('value', 'get', 'large offset'), c.text(), '%s: element %s (linear %d) reads %s rc=%d, written %s' % (c.name, t['idx'], t['lin'], g.vals(), g.rc, want)); break
             ck.outcomes.add(('acc', c.name, t['lin']))
+        # the header the library wrote for the huge variable, decoded independently: begins, vsize (saturated at 2^32-1 in CDF-1/2) and record size
+        sn = r.r(0, x['snap'])
+        if sn is not None and sn.rc == 0 and sn.get('hex'):
+            try:
+                hf = cdf.decode(bytes.fromhex(sn.get('hex')), with_data=False, strict=False)
+                lo, _ = fileck.check_layout(hf, r.r(0, x['ls']).json() if x.get('ls') else None)
+                lo = [y for y in lo if y[0] in ('vsize', 'recsize', 'begin_overlap', 'begin_unaligned', 'inq_recsize', 'inq_varoffset', 'inq_header_size')]
+                if lo: ck.violation(('header', 'large variable', lo[0][0]), c.text(), '%s: header of the file with the large variable: %s' % (c.name, lo[0][1]))
+            except cdf.CDFError as e:
+                ck.violation(('header', 'large variable', 'decode'), c.text(), '%s: header does not decode: %s' % (c.name, e))
     ck.cov['large_offset_accesses'] = nacc
     ck.cov['distinct_nontrivial'] = len(ck.outcomes)
     ck.cov['rule'] = ('(1) format x 1-3 variables x fixed/record in every order x per-variable byte size just below/at/above 2^31-4, 2^31, 2^32-4, 2^32 (and 2^63-4 for CDF-5; several factorisations) plus sizes that push the next begin over 2 GiB; '
                       'expected NC_NOERR/NC_EVARSIZE from the rule table of the property; dimension lengths around every limit. (2) for 7 large variables (fixed/record, 1-D and 2-D with one dimension > 2^31-1, CDF-1/2/5) elements whose byte offset or '
-                      'linear index lies just below/across/above 2^31 and 2^32 are written (blocking, nonblocking, strided with displacement > 32 bits) on sparse files and read back in the same session and after reopen; pairs of contiguous nonblocking requests (iput, bput, iget) completed by one wait whose offsets differ by the length of the first plus 1-3 x 2^31 / 2^32; blocking put/get_vars on 1-D variables with a byte step of 2^31-4 ... 2^32+12 in the fastest dimension, and on a 1-D record variable whose records lie 1 GiB + 4 bytes apart')
+                      'linear index lies just below/across/above 2^31 and 2^32 are written (blocking, nonblocking, strided with displacement > 32 bits) on sparse files and read back in the same session and after reopen; pairs of contiguous nonblocking requests (iput, bput, iget) completed by one wait whose offsets differ by the length of the first plus 1-3 x 2^31 / 2^32; blocking put/get_vars on 1-D variables with a byte step of 2^31-4 ... 2^32+12 in the fastest dimension, and on a 1-D record variable whose records lie 1 GiB + 4 bytes apart; sub-blocks of 3-D and 4-D variables with one dimension above 2^31-1 (as fastest and as middle dimension), every row read back contiguously')
     ck.sample(dcases[0][0].text()[:800]); ck.sample(acc[0][0].text()[:1500])
     ck.assumptions += ['CDF-5 definitions whose later variables would start beyond 2^63 are not generated', 'sparse files on tmpfs; nothing of the huge extents is ever materialised']
     runner.cleanup()
